@@ -11,6 +11,82 @@ ASSUMPTIONS = ["the real reader/worker/sorter threads run on virtual threading/q
 PARTS = pf_parts.parts("C17")
 from . import sdl_ko
 PARTS.append(_compose.ko_part("sdl_ko", sdl_ko.gen_c17, sdl_ko.check_c17, 80, 1500))
+def _real_threads_case(ctx, job):
+    """REAL threads (thorough tier): after exhaustion / del / reset the background threads of the old iterator
+    must be gone from threading.enumerate() within a wall-clock bound, and repeated histories must not accumulate."""
+    import gc
+    import threading
+    import time
+    from .. import vsched
+    vsched.uninstall_nodes()
+    from torchdata.nodes import IterableWrapper, ParallelMapper, Prefetcher
+
+    def bg():
+        return [t.name for t in threading.enumerate() if any(k in t.name for k in ("read_thread", "worker_thread", "sort_thread"))]
+
+    def mk():
+        src = IterableWrapper(list(range(job["n"])))
+        if job["op"] == "prefetch":
+            return Prefetcher(src, job["pf"], snapshot_frequency=job["sf"])
+        return ParallelMapper(src, _twice, num_workers=job["nw"], in_order=job["in_order"], snapshot_frequency=job["sf"])
+
+    base = len(bg())
+    worst = 0
+    for rep in range(job["reps"]):
+        node = mk()
+        for op in job["history"]:
+            try:
+                if op[0] == "take":
+                    node.reset() if rep == 0 and op[1] < 0 else None
+                    for _ in range(max(op[1], 0)):
+                        next(node)
+                elif op[0] == "exhaust":
+                    for _ in node:
+                        pass
+                elif op[0] == "reset":
+                    node.reset()
+                elif op[0] == "state_reload":
+                    sd = node.state_dict()
+                    node.reset(sd)
+            except StopIteration:
+                pass
+        del node
+        gc.collect()
+        t0 = time.time()
+        while len(bg()) > base and time.time() - t0 < 4.0:
+            time.sleep(0.05)
+        worst = max(worst, len(bg()) - base)
+    ctx.case("real_threads", job, True)
+    if worst > 0:
+        ctx.fail("C17:real_threads_left", job, f"{worst} background threads still alive 4 s after the node was dropped: {bg()}")
+
+
+def _twice(x):
+    return 2 * x
+
+
+def _real_threads(ctx):
+    if ctx.tier != "thorough":
+        return
+    jobs = []
+    for i in range(18):
+        r = ctx.rng
+        hist = []
+        for _ in range(r.randrange(1, 4)):
+            hist.append(r.choice([["take", r.randrange(0, 5)], ["exhaust"], ["reset"], ["state_reload"]]))
+        jobs.append({"op": r.choice(["prefetch", "pmap"]), "n": r.randrange(0, 9), "pf": r.randrange(1, 4), "sf": r.randrange(0, 3),
+                     "nw": r.randrange(1, 4), "in_order": r.random() < 0.7, "history": hist, "reps": 3})
+    ctx.pmap(_real_threads_case, jobs, nproc=6)
+
+
+def _real_threads_replay(ctx, payload):
+    from ..core import Ctx
+    sub = Ctx(ctx.prop, ctx.tier, ctx.seed)
+    _real_threads_case(sub, payload["input"])
+    return (False, sub.failures[0].what) if sub.failures else (True, "ok")
+
+
+PARTS.append(_compose.Part("real_threads", _real_threads, _real_threads_replay))
 try:
     from . import pm_parts
     PARTS += pm_parts.parts("C17")
